@@ -152,7 +152,7 @@ def load_one(lit: LineIterator) -> dict:
     atfrozen = fchk.get("MicOpt")
     if atfrozen is not None:
         result["atfrozen"] = atfrozen == -2
-    run_types = {"SP": "energy", "FOpt": "opt", "Scan": "scan", "Freq": "freq"}
+    run_types = {"SP": "energy", "FOpt": "opt", "Scan": "scan", "Freq": "freq", "Force": "energy_force"}
     run_type = run_types.get(fchk["command"])
     if run_type is not None:
         result["run_type"] = run_type
@@ -632,9 +632,10 @@ def dump_one(f: TextIO, data: IOData):
 
     # write run type, level of theory, and basis set name (all in uppercase)
     items = [getattr(data, item) or "NA" for item in ["run_type", "lot", "obasis_name"]]
-    if items[0] == "energy":
-        items[0] = "SP"
-    print(f"{items[0].upper():10s}{items[1].upper():30s}{items[2].upper():>33s}", file=f)
+    # Use the job-type keywords of Gaussian, which the reader maps back to run_type.
+    run_types = {"energy": "SP", "energy_force": "Force", "opt": "FOpt", "scan": "Scan", "freq": "Freq"}
+    items[0] = run_types.get(items[0].lower(), items[0].upper())
+    print(f"{items[0]:10s}{items[1].upper():30s}{items[2].upper():>33s}", file=f)
 
     # write basic information
     _dump_integer_scalars("Number of atoms", data.natom, f)
